@@ -202,11 +202,15 @@ def atom_tex(words, i, rng):
     if w in ('L1', 'L0'):
         t = (w == 'L1')
         k = rng.randrange(5)
-        if k == 0: s = '\\equal{ab}{ab}' if t else '\\equal{ab}{ba}'
+        if k == 0: s = rng.choice(['\\equal{ab}{ab}', '\\equal{}{}', '\\equal{\\emptymac}{}', '\\equal{0}{0}', '\\equal{\\numA}{5}']) if t else rng.choice(['\\equal{ab}{ba}', '\\equal{}{a}', '\\equal{a}{\\emptymac}', '\\equal{0}{}'])
         elif k == 1: s = '\\isodd{%s%d}' % (rng.choice(['', '', '+', '-', '--', '+ ']), 2 * rng.randint(0, 9) + (1 if t else 0))
         elif k == 2: s = '\\boolean{flagT}' if t else '\\boolean{flagF}'
         elif k == 3: s = '\\isundefined{\\nosuchmacroxyz}' if t else '\\isundefined{\\relax}'
-        else: s = rng.choice(['\\lengthtest{1cm<2cm}', '\\lengthtest{1cm<+2cm}', '\\lengthtest{-1cm<2mm}', '\\lengthtest{+5mm<1cm}']) if t else rng.choice(['\\lengthtest{3pt>1in}', '\\lengthtest{+3pt>1in}', '\\lengthtest{3pt<-1in}'])
+        else: s = rng.choice(['\\lengthtest{1cm<2cm}', '\\lengthtest{1cm<+2cm}', '\\lengthtest{-1cm<2mm}', '\\lengthtest{+5mm<1cm}',
+                              # the same length written in two units (exact in TeX's unit table) is equal
+                              '\\lengthtest{254cm=100in}', '\\lengthtest{2540mm=100in}', '\\lengthtest{7227pt=100in}', '\\lengthtest{1pc=12pt}',
+                              '\\lengthtest{1in=2.54cm}', '\\lengthtest{72bp=1in}', '\\lengthtest{1cm=10mm}']) if t else rng.choice(
+                             ['\\lengthtest{3pt>1in}', '\\lengthtest{+3pt>1in}', '\\lengthtest{3pt<-1in}', '\\lengthtest{1cm=1.0001cm}', '\\lengthtest{254cm>100in}', '\\lengthtest{1in<72.27pt}'])
         return s, i + 1
     if w == 'C':
         a, r, b = words[i + 1:i + 4]
@@ -238,7 +242,7 @@ def expr_tex(words, i, rng):
     return '%s %s %s' % (s1, op, s2), k
 
 
-PREAMBLE = ('\\newboolean{flagT}\\setboolean{flagT}{true}\\newboolean{flagF}\\def\\numA{5}' +
+PREAMBLE = ('\\def\\emptymac{}\\newboolean{flagT}\\setboolean{flagT}{true}\\newboolean{flagF}\\def\\numA{5}' +
             ''.join('\\newcounter{cnt%d}\\setcounter{cnt%d}{%d}' % (i, i, i) for i in range(13)))
 
 
